@@ -75,7 +75,7 @@ def gen_case(ctx, i):
         c.update(gt=gt, pr=pr, cls=cls, nanp=nanp, unit=unit, coco=bool(r.integers(0, 2)),
                  stddev=(float(r.uniform(0.01, 0.2)) if r.random() < 0.5 else r.uniform(0.01, 0.2, n_nodes)),
                  scale=[None, float(np.exp(r.uniform(0, 9))), np.exp(r.uniform(0, 9, n_gt))][int(r.integers(0, 3))],
-                 seed=int(r.integers(0, 2 ** 31)))
+                 seed=int(r.integers(0, 2 ** 31)), f32=bool(r.random() < 0.3))
     elif fam == "match":
         n_gt, n_pr, n_nodes = int(r.integers(0, 5)), int(r.integers(0, 5)), int(r.integers(1, 6))
         gt = r.integers(0, 6400, (n_gt, n_nodes, 2)) / 64.0
@@ -140,6 +140,11 @@ def check_oks(ctx, c):
     from sleap_nn.evaluation import compute_oks
 
     gt, pr = arr(c["gt"]), arr(c["pr"])
+    tol = 1e-12
+    if c.get("f32"):  # poses as float32 arrays (what inference produces); the dyadic coordinates are exact in float32 as well
+        gt, pr = gt.astype(np.float32), pr.astype(np.float32)
+        tol = 1e-4
+        ctx.count("oks_float32_cases")
     n_gt, n_nodes = gt.shape[:2]
     n_pr = pr.shape[0]
     stddev = c["stddev"] if np.isscalar(c["stddev"]) else arr(c["stddev"])
@@ -156,17 +161,17 @@ def check_oks(ctx, c):
     ctx.count("oks_calls")
     if o.shape != (n_gt, n_pr):
         return ctx.violation("oks-shape", f"shape {o.shape} != ({n_gt},{n_pr})", small)
-    if not np.all(np.isfinite(o)) or o.min() < 0 or o.max() > 1 + 1e-12:
+    if not np.all(np.isfinite(o)) or o.min() < 0 or o.max() > 1 + tol:
         return ctx.violation("oks-range", f"OKS outside [0,1] or non-finite: {o.tolist()}", small)
     same = f(gt, gt)
-    if np.abs(np.diag(same) - 1).max() > 1e-12:
+    if np.abs(np.diag(same) - 1).max() > tol:
         ctx.violation("oks-identity", f"identical poses score {np.diag(same).tolist()} != 1", small)
     # predictions at nodes missing in the ground truth are ignored (per gt row)
     for i in range(n_gt):
         miss = np.isnan(gt[i]).any(-1)
         if miss.any():
             p2 = pr.copy()
-            p2[:, miss] = r.normal(0, 100, (n_pr, int(miss.sum()), gt.shape[-1]))
+            p2[:, miss] = r.normal(0, 100, (n_pr, int(miss.sum()), gt.shape[-1])).astype(gt.dtype)
             if r.random() < 0.5:
                 p2[:, miss] = np.nan
             sc = scale[i:i + 1] if isinstance(scale, np.ndarray) else scale
@@ -179,7 +184,7 @@ def check_oks(ctx, c):
         p2 = np.where(np.isnan(pr).any(-1, keepdims=True), np.inf, pr)  # "at infinity" literally: 1e15 is not far once the normaliser (area^2 of a huge 3-D pose) reaches 1e29
         b = f(gt, p2)
         ctx.count("missing_pr_checks")
-        if np.abs(o - b).max() > 1e-12:
+        if np.abs(o - b).max() > tol:
             ctx.violation("oks-missing-pred-not-a-miss", f"NaN predicted node is not scored as a complete miss: {o.tolist()} vs far-away {b.tolist()}", small)
     # moving one predicted node farther from its target never increases the score
     for _ in range(3):
@@ -194,13 +199,15 @@ def check_oks(ctx, c):
         p2[j, k] = gt[i, k] + d * float(r.choice([2, 3, 17]))
         b = f(gt, p2)
         ctx.count("monotone_checks")
-        if b[i, j] > o[i, j] + 1e-12:
+        if b[i, j] > o[i, j] + tol:
             ctx.violation("oks-not-monotone", f"moving predicted node {k} farther from its target raised OKS[{i},{j}] {o[i, j]} -> {b[i, j]}", small)
     # translation (exact: dyadic coordinates, integer shift) and permutation
-    t = r.integers(-500, 500, gt.shape[-1]).astype(float)
+    t = r.integers(-500, 500, gt.shape[-1]).astype(gt.dtype)
+    if c.get("f32") and r.random() < 0.5:
+        t = t * 4  # ordinary image coordinates of a large frame (up to +-2000 px)
     b = f(gt + t, pr + t)
     ctx.count("translation_checks")
-    if np.abs(o - b).max() > 1e-9:
+    if np.abs(o - b).max() > max(1e-9, tol):
         ctx.violation("oks-translation", f"translating both poses by {t.tolist()} changed OKS by {np.abs(o - b).max():.3g}", small)
     pg, pp = r.permutation(n_gt), r.permutation(n_pr)
     b = f(gt[pg], pr[pp], scale[pg] if isinstance(scale, np.ndarray) else scale)
